@@ -15,7 +15,9 @@ TEXT["C08"] = ("fault_enumeration", "each fault of the catalogue alone and seede
 TEXT["C02"] = ("exploration", "seeded histories of uniquely numbered datagrams from several local applications to several targets through the real client(s) and server over every UDP-capable configuration, with idle gaps across the table TTLs and, for Shadowsocks, loss / duplication / reordering on the link; oracle over the recorded history: exactly-once (clean) or at-most-once whole-or-nothing (lossy) delivery to the right target, replies to the owning application only, correctly labelled.", "DESIGN.md 4/C02")
 TEXT["C11"] = ("model_checking", "the real packet-window filter is compared with a small executable reference model over every arrival order of length <= 5 drawn from the boundary alphabet (exhaustive) and over seeded long histories; the same arrival orders are then produced by the simulated network (duplication, reordering) between the real Shadowsocks-2022 client and server, where every datagram must be relayed exactly once and refusals must not end the session.", "DESIGN.md 4/C11")
 TEXT["C16"] = ("fault_enumeration", "exhaustive enumeration of the documented cipher, protocol, mode names, of all 2022 key lengths 0..48 and of a list of undocumented strings; each case boots the real main() functions in the simulator, where the set of bound listeners / datagram sockets is observable and a canary flow is run. Exhaustive over the stated case list.", "DESIGN.md 4/C16")
+TEXT["C14"] = ("exploration", "every name length 0..1024 x four protocol families with sampled contents, ports and payloads, requested through the real client (SOCKS5 / HTTP) with the real server behind a byte-counting link node; oracle = exact (name, port, payload) at the server and target, or nothing sent at all; plus direct round trips of both address codecs with a tail. The property has no schedule or fault dimension; the simulator supplies the observation points (what was dialled, what was put on the wire).", "DESIGN.md 4/C14")
 NOTE = {
+ "C14": "trusted base as C01; contents of names sampled, lengths exhaustive",
  "C16": "trusted base as C01; QUIC endpoints are not simulated; algorithm identity is C03's",
  "C11": "reference model = the property's own predicate; exhaustive only over the stated alphabet and length; system half samples schedules",
  "C02": "trusted base as C01; QUIC rows not covered",
